@@ -24,7 +24,7 @@ def minimise(eng, scn, sig, budget=300, wall=60):
             except Exception:
                 continue
             v = o.get('violation')
-            if v and v['sig'] == sig:
+            if v and v['sig'][:3] == sig[:3]:   # same violation class: (property, oracle, kind)
                 best = c
                 kept += 1
                 improved = True
